@@ -98,7 +98,9 @@ Definition isany_spec (o : bobs) : bool :=
 
 Section Case.
   Variable close_fails : list N.
-  Definition cf (o : N) : bool := memN o close_fails.
+  Variable non_closers : list N.   (* objects that do not implement Closer: the controller "closes" them silently, without error *)
+  Definition observable_closes (l : list N) : list N := filter (fun o => negb (memN o non_closers)) l.
+  Definition cf (o : N) : bool := memN o close_fails && negb (memN o non_closers).
 
   Definition nonempty {A} (l : list A) : bool := match l with [] => false | _ => true end.
 
@@ -122,7 +124,7 @@ Section Case.
             let mm := if div then [] else
                  (if Bool.eqb (model_ok op0 r) (ob_ok o) then [] else [KOk]) ++
                  (if Bool.eqb (model_err r) (ob_err o) then [] else [KErr]) ++
-                 (if eqNl (sortN closed) (ob_closed o) then [] else [KClosed]) ++
+                 (if eqNl (sortN (observable_closes closed)) (ob_closed o) then [] else [KClosed]) ++
                  check_state b' o in
             tag (mm ++ oracle)
             ++ run_case (div || nonempty mm) b' (Some o) (ob_closed o ++ closed_so_far) (N.succ i) rest
@@ -134,14 +136,14 @@ Section Case.
     end.
 End Case.
 
-Record bcase := { c_id : N; c_close_fails : list N; c_steps : list (hop * bobs) }.
+Record bcase := { c_id : N; c_close_fails : list N; c_non_closers : list N; c_steps : list (hop * bobs) }.
 Definition mismatches (cs : list bcase) : list (N * (N * N * kind)) :=
-  flat_map (fun c => map (fun m => (c_id c, m)) (run_case (c_close_fails c) false b0 None [] 0%N (c_steps c))) cs.
+  flat_map (fun c => map (fun m => (c_id c, m)) (run_case (c_close_fails c) (c_non_closers c) false b0 None [] 0%N (c_steps c))) cs.
 
 (* coverage vector of a case: which result classes the model went through (for the evidence) *)
 Fixpoint classes (cfl : list N) (b : broker) (steps : list (hop * bobs)) : list rclass :=
   match steps with
   | [] => []
-  | (HOp o, _) :: rest => let '(b', r, _) := step (cf cfl) b o in r :: classes cfl b' rest
+  | (HOp o, _) :: rest => let '(b', r, _) := step (cf cfl []) b o in r :: classes cfl b' rest
   | (HReopen _, _) :: rest => classes cfl b rest
   end.
